@@ -25,6 +25,33 @@ func protoBytes(s *ddsketch.DDSketch) ([]byte, []byte, error) {
 
 func (r *Runner) execProto(cmd string, a []string) string {
 	switch cmd {
+	case "pbeq":
+		if len(a) != 1 {
+			return "bad-op"
+		}
+		e, bad := r.getSk(a[0])
+		if e == nil {
+			return bad
+		}
+		okp, msg := guard(func() {
+			s := e.sk()
+			mem := s.ToProto()
+			_, sb, err := protoBytes(s)
+			if err != nil {
+				r.oracleFail("proto-marshal", err.Error())
+				return
+			}
+			var streamed sketchpb.DDSketch
+			if err := proto.Unmarshal(sb, &streamed); err != nil {
+				r.oracleFail("proto-stream", fmt.Sprintf("streamed bytes do not unmarshal: %v", err))
+			} else if !proto.Equal(&streamed, mem) {
+				r.oracleFail("proto-stream", "the streamed message differs from the message built in memory (bit for bit)")
+			}
+		})
+		if !okp {
+			return r.poisonSk(e, "protobuf", msg)
+		}
+		return "ok"
 	case "pbchk":
 		if len(a) != 3 {
 			return "bad-op"
